@@ -19,7 +19,7 @@ fn walk(dir: &Path, ext: &[&str], out: &mut Vec<std::path::PathBuf>) {
 }
 
 /// Rust string literals (with escapes resolved) found in `src`.
-fn string_literals(src: &str) -> Vec<String> {
+pub fn string_literals(src: &str) -> Vec<String> {
     let cs: Vec<char> = src.chars().collect();
     let mut out = vec![];
     let mut i = 0;
